@@ -656,7 +656,119 @@ func vRunC01Case(out *vOut, r *vRand, id int, stats map[string]int) {
 	if !c.viol {
 		c.readSweep(r, true)
 	}
+	if !c.viol && c.l != nil && !c.l.IsReadonly() {
+		c.tailPhase(r)
+	}
 	c.finish()
+}
+
+// tailPhase: a reader that really waits at the end of the log (a blocking ReadMessage in its own
+// goroutine, not the cancelled-context reads of the sweeps) while batches are appended, across at
+// least one segment roll when the segment limit allows, delivers exactly what the log holds from
+// its start on, in order, without a gap -- whatever truncations, rolls and reopens came before.
+func (c *vLogCase) tailPhase(r *vRand) {
+	unc := r.intn(3) != 0
+	start := c.l.NewestOffset() + 1
+	if len(c.ref) > 0 && r.intn(2) == 0 {
+		start = c.ref[r.intn(len(c.ref))].off
+	}
+	if !unc {
+		if hw := c.l.HighWatermark(); start > hw+1 {
+			start = hw + 1
+		}
+	}
+	rd, err := c.l.NewReader(start, unc)
+	if err != nil {
+		return // start positions a reader cannot take are the sweeps' concern
+	}
+	type rec struct {
+		r   vRefRec
+		err string
+	}
+	ctx, cancel := context.WithCancel(context.Background())
+	got := make(chan rec, 1024)
+	done := make(chan struct{})
+	go func() {
+		defer close(done)
+		hb := make([]byte, 28)
+		for {
+			var x rec
+			p := vCatch(func() {
+				m, off, ts, ep, err := rd.ReadMessage(ctx, hb)
+				if err != nil {
+					x.err = err.Error()
+					return
+				}
+				x.r = vRefRec{off: off, ts: ts, ep: ep, body: append([]byte{}, m...)}
+			})
+			if p != "" {
+				x.err = "panic: " + p
+			}
+			got <- x
+			if x.err != "" {
+				return
+			}
+		}
+	}()
+	defer func() {
+		cancel()
+		<-done
+	}()
+	kind := map[bool]string{true: "uncommitted", false: "committed"}[unc]
+	last := start - 1
+	expect := func(what string) bool {
+		for _, w := range c.ref {
+			if w.off <= last || (!unc && w.off > c.l.HighWatermark()) {
+				continue
+			}
+			last = w.off
+			select {
+			case x := <-got:
+				if x.err != "" || x.r.off != w.off || x.r.ts != w.ts || x.r.ep != w.ep || !vSameBytes(x.r.body, w.body) {
+					c.violation("tail-reader/"+kind, fmt.Sprintf("%s reader tailing the log from offset %d, %s: expected offset %d next, got offset %d %s (log holds %v)", kind, start, what, w.off, x.r.off, x.err, vOffs(c.ref)))
+					return false
+				}
+			case <-time.After(3 * time.Second):
+				c.violation("tail-reader/"+kind, fmt.Sprintf("%s reader tailing the log from offset %d, %s: offset %d is in the log but is not delivered within 3 s (log holds %v)", kind, start, what, w.off, vOffs(c.ref)))
+				return false
+			}
+		}
+		return true
+	}
+	if !expect("catching up") {
+		return
+	}
+	c.stats["tail/"+kind]++
+	segs0 := len(c.l.Segments())
+	for k := 0; k < 8 && !c.viol; k++ {
+		time.Sleep(300 * time.Microsecond) // let the reader park at the end of the log
+		n := 1 + r.intn(3)
+		var msgs []*Message
+		for j := 0; j < n; j++ {
+			msgs = append(msgs, c.genMsg(r, nil))
+		}
+		c.doAppend(msgs)
+		c.state()
+		if c.viol {
+			return
+		}
+		if !unc {
+			c.doHW(c.l.NewestOffset())
+			c.state()
+		}
+		if !expect(fmt.Sprintf("after append %d of the tail phase", k+1)) {
+			return
+		}
+		if k >= 2 && len(c.l.Segments()) > segs0 {
+			c.stats["tail/rolled"]++
+			break
+		}
+	}
+	select {
+	case x := <-got:
+		c.violation("tail-reader/"+kind, fmt.Sprintf("%s reader tailing the log from offset %d delivered offset %d %s beyond what was appended (log holds %v)", kind, start, x.r.off, x.err, vOffs(c.ref)))
+	case <-time.After(200 * time.Microsecond):
+	}
 }
 
 // C16: optimistic concurrency control at the commit-log level.
